@@ -1317,7 +1317,7 @@ def c18(ctx):
 def c19(ctx):
     suite_object(ctx, 5, faults=True, small=True)
     # what a failed conversion left behind must survive any walk through the modes (histories of 9 / 10 calls, mode change = one step)
-    suite_object(ctx, 9 if ctx.quick() else 10, faults=3, small=True, graph=False)
+    suite_object(ctx, 9, faults=3, small=True, graph=False)
     suite_object(ctx, 5, faults=True, small=True, graph=False, variant="ndebug")      # release build: assert() compiled out
     suite_object(ctx, 5, faults=True, small=True, graph=False, variant="extra")       # the strings of the EAV_EXTRA record on failures
     # recorded random histories over the large pool (it holds domains of 300-400 bytes that the real converter refuses):
